@@ -115,7 +115,13 @@ pub fn lattice_quick() -> Vec<Cfg> {
     }
     v.push(Cfg::new(2, 32, 32, 2));
     v.push(Cfg::new(4, 16, 16, 6));
+
     v
+}
+
+/// Capacities beyond the largest bit length (the two limits are unrelated); used by the checks that are cheap per point
+pub fn lattice_large_capacity() -> Vec<Cfg> {
+    vec![Cfg::new(1, 1, 64, 1), Cfg::new(2, 1, 128, 2), Cfg::new(1, 128, 128, 1), Cfg::new(2, 64, 64, 1)]
 }
 
 /// A smaller lattice for expensive per-configuration explorations
